@@ -4,6 +4,7 @@ and record whether it was caught (exit 1 + VIOLATION line) in seeded/<name>/meta
 Developer tool; evidence files are dirtied by this — re-run the checks on the clean tree afterwards."""
 import json, os, subprocess, sys, time
 V = os.path.dirname(os.path.dirname(os.path.abspath(__file__)))
+REPO = os.environ.get("VERIF_REPO", "/repo")
 S = os.path.join(V, "seeded")
 names = sys.argv[1:] or sorted(d for d in os.listdir(S) if os.path.isdir(os.path.join(S, d)))
 claimed = {c["property_id"] for c in json.load(open(os.path.join(V, "MANIFEST.json")))["checks"]}
@@ -13,9 +14,9 @@ for n in names:
     if pid not in claimed:
         rows.append((n, pid, "no check yet", "")); continue
     patch = os.path.join(S, n, "patch.diff")
-    if subprocess.run(["git", "-C", "/repo", "apply", "--check", patch]).returncode != 0:
+    if subprocess.run(["git", "-C", REPO, "apply", "--check", patch]).returncode != 0:
         rows.append((n, pid, "patch does not apply to current /repo", "")); continue
-    subprocess.run(["git", "-C", "/repo", "apply", patch], check=True)
+    subprocess.run(["git", "-C", REPO, "apply", patch], check=True)
     t = time.time()
     try:
         extra = m.get("also_check", [])
@@ -25,10 +26,10 @@ for n in names:
             viol = [l for l in r.stdout.splitlines() if l.startswith("VIOLATION")]
             res[p] = {"exit": r.returncode, "violations": viol[:3]}
     finally:
-        subprocess.run(["git", "-C", "/repo", "checkout", "--", "."]); subprocess.run(["git", "-C", "/repo", "clean", "-fdq", "--", "x", "app", "precompiles", "utils", "types"])
+        subprocess.run(["git", "-C", REPO, "checkout", "--", "."]); subprocess.run(["git", "-C", REPO, "clean", "-fdq", "--", "x", "app", "precompiles", "utils", "types"])
     caught = [p for p, v in res.items() if v["exit"] == 1 and v["violations"]]
     concrete = [p for p in caught if any("no-failing-input-found" not in l for l in res[p]["violations"])]
-    m["detected_by"] = {"checks_run": res, "caught_by": caught, "with_concrete_replay": concrete, "evaluated_at_repo_head": subprocess.run(["git", "-C", "/repo", "log", "--format=%h", "-1"], capture_output=True, text=True).stdout.strip(), "wall_s": round(time.time() - t)}
+    m["detected_by"] = {"checks_run": res, "caught_by": caught, "with_concrete_replay": concrete, "evaluated_at_repo_head": subprocess.run(["git", "-C", REPO, "log", "--format=%h", "-1"], capture_output=True, text=True).stdout.strip(), "wall_s": round(time.time() - t)}
     json.dump(m, open(mp, "w"), indent=1)
     rows.append((n, pid, "CAUGHT by " + ",".join(caught) + (" (concrete replay)" if concrete else " (no-failing-input-found)") if caught else "MISSED", res[pid]["violations"][0][:140] if res[pid]["violations"] else ""))
     print(rows[-1], flush=True)
